@@ -51,6 +51,8 @@ pub struct RunOut {
     pub consumed: usize,
     /// the remainder is a suffix of the input (by pointer for non-empty ones)
     pub suffix_ok: bool,
+    /// heap allocation calls made by this thread inside `run`
+    pub allocs: u64,
 }
 
 /// Runs `input` through `iface.run` with writer `w`.  The thread-local log is
@@ -58,6 +60,7 @@ pub struct RunOut {
 pub fn run_on<I: Interface, W: Write>(iface: &mut I, input: &[u8], w: &mut W, pat: Pattern) -> RunOut {
     log::reset();
     exec::set_pattern(pat);
+    let a0 = crate::alloc_count::count();
     let r = catch_unwind(AssertUnwindSafe(|| {
         block_on(async {
             let rest = iface.run(input, w).await;
@@ -70,10 +73,11 @@ pub fn run_on<I: Interface, W: Write>(iface: &mut I, input: &[u8], w: &mut W, pa
             (input.len().saturating_sub(rest.len()), ok)
         })
     }));
+    let allocs = crate::alloc_count::count() - a0;
     match r {
-        Ok(Ok((consumed, ok))) => RunOut { end: End::Returned, consumed, suffix_ok: ok },
-        Ok(Err(e)) => RunOut { end: End::Exec(e.into()), consumed: 0, suffix_ok: true },
-        Err(p) => RunOut { end: End::Panicked(panic_text(p)), consumed: 0, suffix_ok: true },
+        Ok(Ok((consumed, ok))) => RunOut { end: End::Returned, consumed, suffix_ok: ok, allocs },
+        Ok(Err(e)) => RunOut { end: End::Exec(e.into()), consumed: 0, suffix_ok: true, allocs },
+        Err(p) => RunOut { end: End::Panicked(panic_text(p)), consumed: 0, suffix_ok: true, allocs },
     }
 }
 
@@ -92,6 +96,8 @@ pub struct ProcOut {
     pub budget_exceeded: bool,
     pub consumed: usize,
     pub last_state: LoopState,
+    /// heap allocation calls made by this thread inside `process`
+    pub allocs: u64,
 }
 
 pub fn process_on<const N: usize, I: Interface>(
@@ -101,7 +107,9 @@ pub fn process_on<const N: usize, I: Interface>(
     exec::set_pattern(pat);
     let mut t = Transport::new(stream, sizes, fault, N);
     t.keep_states = keep_states;
+    let a0 = crate::alloc_count::count();
     let r = catch_unwind(AssertUnwindSafe(|| block_on(iface.process::<N, _>(&mut t))));
+    let allocs = crate::alloc_count::count() - a0;
     let (end, result) = match r {
         Ok(Ok(res)) => (End::Returned, Some(res)),
         Ok(Err(e)) => (End::Exec(e.into()), None),
@@ -120,6 +128,7 @@ pub fn process_on<const N: usize, I: Interface>(
         budget_exceeded: t.budget_exceeded,
         consumed: t.pos,
         last_state: t.last_state,
+        allocs,
     }
 }
 
